@@ -259,7 +259,14 @@ def run(tier):
                                 f"relative={mx.relative_mass} absolute={mx.absolute_mass}", {"text": txt})
             except Exception as exc:
                 v.violation("C02:mixture-rejected", f"{where}({txt!r}) raises {type(exc).__name__}: {exc}", {"text": txt})
-    v.coverage = {"states": r.distinct, "transitions": r.generated, "traces_validated_against_impl": n_cmp + n_mol,
+    # system texts: every sequence of pieces up to a length (spec/SystemScan.tla), the scanner theorem, replay into System / Molecule
+    from . import sysscan
+    sviol, scov = sysscan.run(5 if tier == "quick" else 6)
+    for key, msg in sviol:
+        if key.startswith("C02:"):
+            v.violation(key, msg, {"text": msg.split("(", 1)[1].split(")", 1)[0] if "(" in msg else ""})
+    v.coverage = {"states": r.distinct + scov["states"], "transitions": r.generated + scov["states"], "traces_validated_against_impl": n_cmp + n_mol + scov["piece_sequences"],
+                  "system_texts": scov,
                   "token_texts_enumerated_by_TLC": len(toks), "max_symbols": L, "concretisations_per_text": K,
                   "specification_meaning_vs_RDKit_mismatches": spec_mismatch, "molecule_strings_compared": n_mol, "mixture_specifiers_compared": n_mix,
                   "samples": samples}
